@@ -149,6 +149,13 @@ class CallMixin:
         line = getattr(node, "lineno", 0)
         self.used_contracts[c.label] = c
         extra = self.bind_params(c, args, kw, node)
+        arg_text = [ast.unparse(a) for a in getattr(node, "args", [])] if isinstance(node, ast.Call) else []
+        from .state import Ctx as _Ctx
+
+        def Ctx(*a_, **k_):          # every context of this call site knows the source text of the arguments
+            cx = _Ctx(*a_, **k_)
+            object.__setattr__(cx, "arg_text", arg_text)
+            return cx
         pre_ctx = Ctx(self, st, args=args, kw=kw, recv=recv, extra=extra)
         if c.requires is not None:
             self.emit("call.pre", node, st, c.requires(pre_ctx), tag=c.label)
